@@ -4,6 +4,7 @@
 -/
 import Rtcp.Impl.Compound
 import Driver.Sexp
+import Rtcp.Impl.Fast
 
 namespace Driver
 open Rtcp Rtcp.Impl
@@ -178,19 +179,19 @@ def dumpSdesView (pfx : String) (base : Nat) (s : Sdes) : Out := Id.run do
   return o
 
 def nackElems (d : Bytes) : Elems :=
-  match (Nack.entries d : R Unit _) with
+  match (Fast.nackEntries d : R Unit _) with
   | .ok (l, true) => .ok (l.map toString)
   | .ok (_, false) => .cap
   | _ => .panic
 
 def firElems (d : Bytes) : Elems :=
-  match (Fir.entries d : R Unit _) with
+  match (Fast.firEntries d : R Unit _) with
   | .ok (l, true) => .ok (l.map (fun (s, q) => toString s ++ ":" ++ toString q))
   | .ok (_, false) => .cap
   | _ => .panic
 
 def sliElems (d : Bytes) : Elems :=
-  match (Sli.lostMacroblocks d : R Unit _) with
+  match (Fast.sliEntries d : R Unit _) with
   | .ok (l, true) => .ok (l.map (fun e => s!"{e.start}:{e.count}:{e.pictureId}"))
   | .ok (_, false) => .cap
   | _ => .panic
@@ -309,7 +310,7 @@ def dumpCompound (pfx : String) (d : Bytes) : Out := Id.run do
   let mut o : Out := #[(pfx ++ "res", resP r)]
   match r with
   | .ok c =>
-    match (Compound.collect (d.length / 4 + 8) c [] : R Unit _) with
+    match (Fast.compoundCollect (d.length / 4 + 8) c : R Unit _) with
     | .ok (items, finished, c') =>
       if !finished then
         o := o.push (pfx ++ "n", "cap")
@@ -323,8 +324,8 @@ def dumpCompound (pfx : String) (d : Bytes) : Out := Id.run do
           o := o.push (ip ++ "res", resP res)
           match res with
           | .ok p =>
-            let tile := ((d.drop off).take p.data.length)
-            o := o ++ dumpPacketView ip off p tile false
+            -- the tile's bytes are the packet's own (`Props.packet_data`); no re-slicing of `d`
+            o := o ++ dumpPacketView ip off p p.data false
           | _ => pure ()
           i := i + 1
         -- three further calls
@@ -407,9 +408,12 @@ def dumpView (pfx : String) (kind : PKind) (d : Bytes) : Out :=
   | .packet =>
     let r := Packet.parse d
     let o : Out := #[(pfx ++ "res", resP r)]
+    -- `typed.unknown`, and the seven `typed.<k>` also when the generic parser refused the bytes
+    let tu : Out := #[(pfx ++ "typed.unknown", resP (Unknown.parse d))]
     match r with
-    | .ok p => o ++ dumpPacketView pfx 0 p d true
-    | _ => o
+    | .ok p => o ++ dumpPacketView pfx 0 p d true ++ tu
+    | .err _ => o ++ (Kind.all.map (fun k => (pfx ++ "typed." ++ kindName k, resP (k.parse d)))).toArray ++ tu
+    | .panic => o
   | .compound => dumpCompound pfx d
   | .rb =>
     let r := ReportBlock.parse d
